@@ -19,7 +19,7 @@ from ..corpus import b64
 PROP = "C19"
 LEVEL = "exploration"
 COUNTS = {"quick": 4000, "thorough": 60000}
-WALL = {"quick": 170, "thorough": 3300}
+WALL = {"quick": 900, "thorough": 6000}
 RULE = (
     "scenario = seeded tree (depth <= 3, <= 14 entries: .md/.MD/.txt/.markdown/no extension, directories incl. one named like a file, "
     "names with glob characters, empty and hidden directories) x 1-3 path arguments (file, directory, ./ and dir/../ spellings, trailing "
